@@ -165,11 +165,28 @@ S2_UNARY = {"unary_nonsample": unary_nonsample, "unary_sample": unary_sample}
 S3 = {"diploid_cherry": diploid_cherry, "diploid_two_tree": diploid_two_tree}
 
 
+class _Named(dict):
+    """catalogue plus dynamically named msprime skeletons "rand:<seed>:<samples>:<length>"."""
+
+    def __missing__(self, k):
+        if isinstance(k, str) and k.startswith("rand:"):
+            _, seed, n, length = k.split(":")
+            return lambda: random_skeleton(int(seed), n=int(n), length=int(length))
+        raise KeyError(k)
+
+
 def all_named():
-    d = {}
+    d = _Named()
     for g in (S1, S1_HIST, S2, S2_UNARY, S3):
         d.update(g)
     return d
+
+
+def random_names(k=4, n=4, length=12):
+    """names of k msprime skeletons for the thorough tier (VERIF_SEED selects the family)"""
+    import os
+    base = int(os.environ.get("VERIF_SEED", "1")) * 100
+    return [f"rand:{base + i}:{n}:{length}" for i in range(k)]
 
 
 def children_first_orders(ts, limit=None):
